@@ -77,6 +77,14 @@ SPECS = {
         search=False,
         explanation="sources x operation sequences issued within one query and across queries, on strings.Reader / data-with-EOF reader / one-byte reader / files with each eof_action; every result and error compared with the cursor model; output sequences compared with the sink",
     ),
+    "C17": dict(
+        level="proof", props_deps=["Proofs/Dcg.v"], model_deps=["Model/DcgCheck.v", "Model/MachineCheck.v"],
+        trusted=ENGINE_TRUSTED + ["hand-written Model/Dcg.v (mirror of dcg.go: expandDCG, dcgBody, dcgCBody, dcgNonTerminal, dcgTerminals, the construct table), tied by the expand_term/2 comparison and by running its output on M and S",
+                                  "the semantic theorem covers the context-free core (terminals, non-terminals, sequence, alternation); for {}//1, \\+//1, !//0, call//N, if-then-else, arguments and push-back the preservation is checked on the implementation against the reference semantics S of the translated program, not proved"],
+        assumptions=["grammars are not left-recursive; answers are compared in order up to the answer limit",
+                     "a variable as a grammar body (phrase//1 at run time) is not generated"],
+        explanation="grammars over every construct x all input lists up to length 3 in recognition, remainder, bound-remainder and generation mode; expand_term/2 output compared with the mirrored translation; phrase/2,3 answers compared with the translated program on M and S",
+    ),
     "C12": dict(
         level="proof", props_deps=["Proofs/Solutions.v"], model_deps=["Model/SolutionsCheck.v"],
         trusted=COMMON_TRUSTED + ["hand-written handshake model Model/Solutions.v under run-to-block semantics; Go channels, scheduler and memory model are not modelled"],
